@@ -263,6 +263,26 @@ def check_memo_advisory(ctx: Check, tree: Tree) -> None:
             ctx.advisory("A-MEMO", tree.loc(fn.node), f"{cls_name}._create_matrices is memoised and formulate(parametrize=False) hands out the cached MutableDenseMatrix (see C06; not a clause of C10)")
 
 
+def check_cached_matrices_not_mutated(ctx: Check, tree: Tree) -> None:
+    """The symbolic matrices come out of functools.cache: formulate() must substitute into
+    them (xreplace builds new objects) and never write into them, otherwise the k-th call
+    for the same number of channels returns something else than the first."""
+    from .c06 import AliasFlow, memoised_functions, mutable_result
+
+    sources = {f.qual: f"memoised {f.qual}" for f in memoised_functions(tree) if f.qual.startswith(MOD + "::") and mutable_result(f) and f.cls is not None and f.cls.name in ('RelativisticPVector', 'NonRelativisticPVector')}
+    if len(sources) < 2:
+        raise AnalysisError(f"only {len(sources)} memoised _create_matrices found for RelativisticPVector/NonRelativisticPVector")
+    flow = AliasFlow(tree, sources)
+    flow.fixpoint()
+    bad = [(fn, node, origin) for fn, node, origin in flow.mutations() if fn.qual not in sources]
+    for fn, node, origin in bad:
+        ctx.violation("R-CACHE", f"{fn.qual}::{unparse(node)[:60]}::mutates-cached-matrix", tree.loc(node),
+                      f"{fn.qual}: `{unparse(node)[:60]}` writes into a matrix that aliases a memoised result ({origin.split(' -> ')[0]})",
+                      "the cached matrix is shared by all later calls with the same n_channels: the second formulate() starts from the already modified matrix")
+    if not bad:
+        ctx.ok("R-CACHE", MOD.replace(".", "/"), f"the {len(sources)} memoised matrix builders' results are only read / substituted (xreplace), never written")
+
+
 def run(ctx: Check, tree: Tree) -> None:
     ctx.decided += [
         "every (caller, callee, parameter) triple over {phsp_factor, angular_momentum, meson_radius} in ampform.dynamics forwards the caller's value (R-FORWARD)",
@@ -277,3 +297,4 @@ def run(ctx: Check, tree: Tree) -> None:
     ctx.section(check_f_vector, ctx, tree, "RelativisticPVector", rel=True)
     ctx.section(check_pvector_wiring, ctx, tree)
     ctx.section(check_memo_advisory, ctx, tree)
+    ctx.section(check_cached_matrices_not_mutated, ctx, tree)
